@@ -749,6 +749,17 @@ def gen_wkdibe(rng, n, tier):
         kf = S.key(op, p0, kh, fill, random=(op == "wk_qualify")); S.decrypt(cth, kf, "ne")
     knd = S.key("wk_ndqualify", p0, kh, [(0, vals[0], False)], random=False)
     ka = S.adjustnd(knd, kh, [(0, vals[0], False)], fill); S.decrypt(cth, ka, "ne")
+    # a slot that is FREE in the parent and hidden by the target list of an adjustment must disappear from the adjusted key:
+    # qualifying that slot afterwards (both paths) must not yield a key that opens ciphertexts in which the slot is set
+    kpar = S.key("wk_keygen", p0, m0, [(0, vals[0], False)])
+    knd0 = S.key("wk_ndqualify", p0, kpar, [(0, vals[0], False)], random=False)
+    kadj = S.adjustnd(knd0, kpar, [(0, vals[0], False)], [(0, vals[0], False), (1, 0, True)])
+    knd1 = S.key("wk_ndqualify", p0, kpar, [(0, vals[0], False), (2, vals[2], False)], random=False)
+    kadj2 = S.adjustnd(knd1, kpar, [(0, vals[0], False), (2, vals[2], False)], [(0, vals[0], False), (1, 0, True)])
+    for kx in (kadj, kadj2):
+        S.decrypt(cth, kx, "ne")
+        for op in ("wk_qualify", "wk_ndqualify"):
+            kf = S.key(op, p0, kx, fill, random=(op == "wk_qualify")); S.decrypt(cth, kf, "ne")
     # precomputation: adjust == recompute, chains, ids >= r, insertions / deletions / changes / empty
     lists = [[], [(0, vals[0], False)], [(1, vals[1], False), (3, vals[3], False)], [(0, (1 << 256) - 1, False)], [(0, R, False), (2, R + 1, False)],
              [(i, vals[i], False) for i in range(l)], [(2, 5, False)], [(0, vals[0], False), (2, 0, False)]]
@@ -860,6 +871,14 @@ def expand_unmarshal(lines, outs, rng, tier):
             m = bytearray(b); m[pos] ^= 1 << rng.randrange(8)
             extra.append("%s %s %s 1 %s" % (op, ty, comp, bytes(m).hex()))
             if rng.random() < 0.15: extra.append("%s %s %s 0 %s" % (op, ty, comp, bytes(m).hex()))
+        if op == "wk_um" and ty == "sk":
+            # free-slot indices beyond one byte (a slot is 4 big-endian index bytes + a G1 element, slots are last in the buffer):
+            # the buffer stays valid, the object must survive unmarshal -> marshal with every index byte intact
+            slot = 4 + (48 if comp == "1" else 96)
+            if len(b) >= slot + 100:
+                for idxv in (0x00000100, 0x00010203, 0x7fffffff, 0x0000ffff):
+                    m = bytearray(b); m[len(b) - slot: len(b) - slot + 4] = idxv.to_bytes(4, "big")
+                    extra.append("%s %s %s 1 %s" % (op, ty, comp, bytes(m).hex()))
         if op == "wk_um" and ty in ("params", "sk"):
             extra.append("%s %s %s 1 %s" % (op, ty, comp, b[:-1].hex()))
             extra.append("%s %s %s 1 %s" % (op, ty, comp, (b + b"\x00").hex()))
